@@ -412,6 +412,7 @@ def main(argv):
     ap.add_argument('--replay')
     ap.add_argument('--runs', type=int)
     ap.add_argument('--digest-jobs')
+    ap.add_argument('--aux', nargs='*')
     args, rest = ap.parse_known_args(argv)
     try:
         check_repo_import()
@@ -421,6 +422,8 @@ def main(argv):
         if args.target not in registry.CHECKS:
             log('unknown property %s' % args.target)
             return core.EXIT_HARNESS
+        if args.aux is not None:
+            return registry.engine_for(args.target).aux(args.aux)
         if args.replay:
             return run_replay(args.target, args.replay)
         if args.digest_jobs is not None:
